@@ -1,6 +1,7 @@
 import DEvo.Sql.Schema
 import DEvo.Opt.Regroup
 import DEvo.Generated.Tables
+import DEvo.Sql.DbState
 
 /-! # C01 — evolved database schema equals the schema of freshly created models
 
@@ -116,5 +117,42 @@ theorem C01_frame_other_models (e : Env) (mu : Mutation) (a a' : AppSig) (n : St
 /-- **frame, other apps**: replacing the evolved app leaves every app with another id untouched -/
 theorem C01_frame_other_apps (p : ProjectSig) (a' b : AppSig) (hb : b ∈ p.apps) (hid : b.id ≠ a'.id) :
     b ∈ (p.putApp a').apps := mem_putApp_other hb hid
+
+/-! ## the index bookkeeping the SQL generation consults (`DatabaseState`, Sql/DbState.lean) -/
+
+open DEvo.Sql in
+/-- an index that was registered is found by its columns: the generator will not create it a second time -/
+theorem C01_state_find_after_add (s s' : DbState) (t name : String) (cols : List String) (u : Bool)
+    (h : addIndex s t name cols u = .ok s') :
+    ∃ ix, findIndex s' t cols u = some ix ∧ ix.cols = cols ∧ ix.unique = u := find_after_add s s' t name cols u h
+
+open DEvo.Sql in
+/-- an index that was removed from the bookkeeping is no longer known by its name ... -/
+theorem C01_state_removed_index_is_gone (s s' : DbState) (t name : String) (u : Bool)
+    (h : removeIndex s t name u = .ok s') : getIndex s' t name u = none := removed_is_gone s s' t name u h
+
+open DEvo.Sql in
+/-- ... nor found by its columns, unless another index of that kind covers the same columns: a later
+mutation of the same run that needs such an index will create it -/
+theorem C01_state_remove_then_find (s s' : DbState) (t name : String) (cols : List String) (u : Bool) (tb : Tbl)
+    (ht : getTbl s t = some tb) (hw : tb.WF) (h : removeIndex s t name u = .ok s')
+    (honly : ∀ ix ∈ tb.dict u, ix.cols = cols → ix.name = name) :
+    findIndex s' t cols u = none := remove_then_find s s' t name cols u tb ht hw h honly
+
+open DEvo.Sql in
+/-- every index sits in the dictionary of its kind, in every state reached by registering and removing -/
+theorem C01_state_wf_step (s s' : DbState) (t name : String) (cols : List String) (u : Bool) (hw : WFState s) :
+    (addIndex s t name cols u = .ok s' → WFState s') ∧ (removeIndex s t name u = .ok s' → WFState s') :=
+  ⟨wf_addIndex s s' t name cols u hw, wf_removeIndex s s' t name u hw⟩
+
+open DEvo.Sql in
+/-- the hypotheses are satisfiable, and the stale-record situation they exclude is real: with the record
+left in place (an index dropped by bare SQL) the lookup still finds it -/
+example :
+    let s0 : DbState := addTable [] "vapp_book"
+    (do let s1 ← addIndex s0 "vapp_book" "vapp_book_ty_idx" ["title", "year"] false
+        let s2 ← removeIndex s1 "vapp_book" "vapp_book_ty_idx" false
+        pure (findIndex s1 "vapp_book" ["title", "year"] false, findIndex s2 "vapp_book" ["title", "year"] false))
+      = (.ok (some ⟨"vapp_book_ty_idx", ["title", "year"], false⟩, none) : Except StErr _) := by decide
 
 end DEvo.Props.C01
